@@ -19,6 +19,14 @@ fn main() {
     }
     implx::silence_panics();
     let id = args[1].as_str();
+    if id == "C05-family" {
+        std::process::exit(checks::c05::family_child(&args[2], args[3].parse().unwrap()));
+    }
+    if id == "C05-one" {
+        let mut st = engine::Stats::default();
+        checks::c05::total(&args[2], "one", &mut st);
+        std::process::exit(if st.violation_count > 0 { 1 } else { 0 });
+    }
     if args[2] == "--replay" {
         let txt = std::fs::read_to_string(&args[3]).expect("read replay file");
         let v: serde_json::Value = serde_json::from_str(&txt).expect("replay json");
